@@ -21,6 +21,7 @@ FUNCTIONS = [
     "magpylib._src.input_checks:check_format_input_observers",
     "magpylib._src.input_checks:check_format_pixel_agg",
     "magpylib._src.input_checks:check_getBH_output_type",
+    "magpylib.core:magnet_cuboid_Bfield, magnet_sphere_Bfield, dipole_Hfield, current_polyline_Hfield, triangle_Bfield, current_circle_Hfield, magnet_cylinder_axial_Bfield",
     "magpylib._src.input_checks:check_dimensions",
     "magpylib._src.input_checks:check_excitations",
     "magpylib._src.utility:format_src_inputs",
@@ -31,6 +32,8 @@ BOUNDS = [
     "fault kinds per field-function invocation: raise, return None, return wrong shape, normal (symbolic booleans, all schedules)",
     "functional interface with n=2 per-instance caller arrays for Tetrahedron (one of negative chirality), Cuboid, Polyline, TriangularMesh, Dipole",
     "argument faults: invalid pixel_agg, invalid output, incompatible pixel shapes, missing excitation, unsupported field of a custom source",
+    "exported core kernels called directly with 2-row caller arrays: magnet_cuboid_Bfield, magnet_sphere_Bfield, dipole_Hfield, current_polyline_Hfield and "
+    "triangle_Bfield (concrete segments / triangles), current_circle_Hfield, magnet_cylinder_axial_Bfield (elliptic kernels cut)",
 ]
 CUTS = ["local field functions are uninterpreted; scipy Rotation replaced by SymRot"]
 ASSUMPTIONS = ["real arithmetic; unit input quaternions"]
@@ -111,6 +114,8 @@ def cases(tier, seed):
     for cls in CALLER:
         for f in ("B", "H", "J"):
             out.append({"id": f"caller-arrays-{cls}-{f}", "kind": "caller", "cls": cls, "field": f, "weight": 2})
+    for fn in CORE:
+        out.append({"id": f"core-arrays-{fn}", "kind": "core", "fn": fn, "weight": 2})
     for nm in SCENES:
         out.append({"id": f"faults-{nm}", "kind": "faults", "scene": nm, "weight": 5})
     for af in ARG_FAULTS:
@@ -158,6 +163,8 @@ def run_case(case, info):
         _faults(C)
     elif case["kind"] == "caller":
         _caller(C)
+    elif case["kind"] == "core":
+        _core(C)
     else:
         _argfault(C)
     return C.result()
@@ -248,6 +255,95 @@ def _caller(C):
                  sample=f"get{f}('{cls}', observers, **per-instance arrays): every array passed by the caller is term-identical afterwards")
 
     paths = explore(run, max_paths=60 if C.tier == "quick" else 400, on_path=on_path, seeds=C.seed_envs(inputs, n=1))
+    C.decisions += sum(len(p.decisions) for p in paths)
+    if explore.truncated:
+        C.note_inconclusive("path-budget", "path budget hit")
+
+
+# exported core kernels (magpylib.core.*) called directly with the caller's arrays, 2 rows: name -> (argument shapes per row, positive arguments, cuts)
+CORE = {
+    "magnet_cuboid_Bfield": ({"observers": (3,), "dimensions": (3,), "polarizations": (3,)}, ("dimensions",), ()),
+    "magnet_sphere_Bfield": ({"observers": (3,), "diameters": (), "polarizations": (3,)}, ("diameters",), ()),
+    "dipole_Hfield": ({"observers": (3,), "moments": (3,)}, (), ()),
+    "current_polyline_Hfield": ({"observers": (3,), "segments_start": (3,), "segments_end": (3,), "currents": ()}, (), ()),
+    "triangle_Bfield": ({"observers": (3,), "vertices": (3, 3), "polarizations": (3,)}, (), ("triB-none",)),
+    "current_circle_Hfield": ({"r0": (), "r": (), "z": (), "i0": ()}, ("r0", "r"), ("cel", "ellipe", "ellipk")),
+    "magnet_cylinder_axial_Bfield": ({"z0": (), "r": (), "z": ()}, ("z0", "r"), ("cel", "ellipe", "ellipk")),
+}
+
+
+def _core_args(fn, symbolic, env=None):
+    shapes, positive, _ = CORE[fn]
+    args, pre = {}, []
+    rng = np.random.default_rng(3)
+    for k, shp in shapes.items():
+        if symbolic:
+            a = symarr(k, (2,) + tuple(shp))
+            if k in positive:
+                pre += [toz(x) > 0 for x in a.ravel()]
+        else:
+            a = rng.normal(size=(2,) + tuple(shp))
+            for idx in np.ndindex(*a.shape):
+                v = (env or {}).get(k + "_" + "_".join(map(str, idx)))
+                if v is not None:
+                    a[idx] = float(v)
+            if k in positive:
+                a = np.abs(a) + 0.1
+        args[k] = a
+    if fn == "triangle_Bfield":
+        # concrete, non-degenerate triangles (the kernel itself is C15's subject); observers and polarizations stay symbolic
+        V = np.array([[(0, 0, 0), (2, 0, 0), (0, 3, 1)], [(1, 0, 0), (0, 1, 0), (0, 0, 1)]], dtype=float)
+        args["vertices"] = oarr(V) if symbolic else V.copy()
+    if fn == "current_polyline_Hfield":
+        # concrete segments (fully symbolic end points make the path conditions needlessly heavy; the aliasing question does not depend on them)
+        s0 = np.array([(0, 0, 0), (1, -1, 0)], dtype=float)
+        s1 = np.array([(1, 0, 0), (3, 0, 2)], dtype=float)
+        args["segments_start"], args["segments_end"] = (oarr(s0), oarr(s1)) if symbolic else (s0.copy(), s1.copy())
+    return args, pre
+
+
+def _core(C):
+    import magpylib.core as core
+    from .wrappers import apply_cuts
+
+    fn = C.case["fn"]
+    apply_cuts([c for c in CORE[fn][2] if c in ("cel", "ellipe", "ellipk")])
+    f = getattr(core, fn)
+    # (magpylib.core re-exports the functions of the patched field modules: they run on the proxies)
+    args0, pre0 = _core_args(fn, True)
+    CTX.pre = pre0
+    inputs = [x for a in args0.values() for x in np.asarray(a, dtype=object).ravel() if isinstance(x, S) and not z3.is_rational_value(x.z)]
+    rp = {"kind": "core", "fn": fn}
+    C.concrete_trace(replay, dict(rp, env={}), f"C08|core|caller-array|{fn}|concrete", reapply=lambda: apply_cuts([c for c in CORE[fn][2] if c in ("cel", "ellipe", "ellipk")]))
+
+    def run():
+        args, _ = _core_args(fn, True)
+        copies = {k: np.array(v, dtype=object, copy=True) for k, v in args.items()}
+        try:
+            f(**args)
+            how = "return"
+        except Exception as e:  # noqa
+            how = f"{type(e).__name__}: {e}"
+        return args, copies, how
+
+    def on_path(p):
+        C.paths += 1
+        if p.status != "ok":
+            C.note_inconclusive(f"p{C.paths}", f"aborted: {p.out}")
+            return
+        args, copies, how = p.out
+        terms = []
+        for k, a in args.items():
+            a = np.asarray(a, dtype=object)
+            if a.shape != copies[k].shape:
+                C.candidates.append({"key": f"C08|core|caller-array|{fn}|{k}", "replay": dict(rp, env={})})
+                return
+            terms.append(neq_any(a, copies[k]))
+        C.oblige(f"p{C.paths}.caller-arrays-unchanged[{how[:30]}]", p.pc, z3.Or(*terms), inputs=inputs, key=f"C08|core|caller-array|{fn}",
+                 on_model=lambda env: {"key": f"C08|core|caller-array|{fn}", "replay": dict(rp, env=env)},
+                 sample=f"magpylib.core.{fn}(**arrays): every array passed by the caller is term-identical afterwards")
+
+    paths = explore(run, max_paths=40 if C.tier == "quick" else 300, on_path=on_path, seeds=C.seed_envs(inputs, n=1))
     C.decisions += sum(len(p.decisions) for p in paths)
     if explore.truncated:
         C.note_inconclusive("path-budget", "path budget hit")
@@ -440,6 +536,18 @@ def replay(spec):
             how = type(e).__name__
         changed = [k for k, v in args.items() if np.shape(v) != copies[k].shape or not np.array_equal(np.asarray(v), copies[k])]
         return bool(changed), f"get{spec['field']}('{spec['cls']}', ...) ended with {how}; caller arrays changed: {changed or 'none'}"
+    if spec["kind"] == "core":
+        import magpylib.core as core
+
+        args, _ = _core_args(spec["fn"], False, env=spec.get("env") or {})
+        copies = {k: np.array(v, copy=True) for k, v in args.items()}
+        try:
+            getattr(core, spec["fn"])(**args)
+            how = "return"
+        except Exception as e:  # noqa
+            how = type(e).__name__
+        changed = [k for k, v in args.items() if np.shape(v) != copies[k].shape or not np.array_equal(np.asarray(v), copies[k])]
+        return bool(changed), f"magpylib.core.{spec['fn']}(...) ended with {how}; caller arrays changed: {changed or 'none'}"
     if spec["kind"] == "faults":
         sc = _build(SCENES[spec["scene"]], plan=spec["plan"], symbolic=False, env=env)
         sc.patch_classes()
